@@ -25,6 +25,7 @@ F_MUT = "C20-openrange-rewrites-index"
 F_GRAM = "C20-bloom-gram-phrase"
 F_MATCHEQ = "C20-matchphrase-key-as-equality"
 F_LIKE = "C20-like-on-key-panics"
+F_NULL = "C20-null-key-sort-order"
 STROPS = ("match", "ipinrange", "like", "matchop")
 OPS = {"=": "Ceq", "!=": "Cne", "<": "Clt", "<=": "Cle", ">": "Cgt", ">=": "Cge"}
 
@@ -313,6 +314,14 @@ def strop_stream(ck, scases, vi):
     return verd, broken, reading
 
 
+def reader_sorted(t):
+    """the key rows (first used columns) are in the order in which the index reader interprets them: lexicographic, nulls greatest"""
+    u = max(used_keys(t), 1)
+    big = (1, 0)
+    ks = [tuple(big if v is None else (0, v) for v in row[:u]) for row in t["keys"]]
+    return all(ks[i] <= ks[i + 1] for i in range(len(ks) - 1))
+
+
 def explained_by_rb(t, e):
     nf = t["nfrag"]
     probes = [[f, f + 1] for f in range(nf)] + [list(p) for p in t["in"]["probes"]]
@@ -428,7 +437,7 @@ def classify(ck, cases, tag):
         elif all(x[0] & 4 for x in e):
             broken.append(("correspondence C20: CheckInRange marks differ from the model's check_in_range on case %d" % i, i))
     # ---- oracle failures
-    verdicts = {"known_rb": 0, "known_mut": 0, "violation": 0}
+    verdicts = {"known_rb": 0, "known_mut": 0, "known_null": 0, "violation": 0}
     for i in sorted(oracle_ids):
         t = cases[i]
         e = res.get(i)
@@ -436,6 +445,12 @@ def classify(ck, cases, tag):
         rec = {"kind": "direct-oracle", "what": t["oracle"], "in": t["in"], "case": i, "stream": tag,
                "ranges": t["ranges"], "match": t["match"], "scanerr": t["scanerr"]}
         done = False
+        if t["in"].get("writersort") and not reader_sorted(t) and any(v is None for row in t["keys"] for v in row[:max(used_keys(t), 1)]):
+            # rows ordered by the writer's sort (nulls first) are not in the order the reader assumes (nulls = +infinity)
+            if ck.match_finding(F_NULL):
+                ck.known_finding(F_NULL, "a fragment with a matching row is pruned: null key values are sorted first by the writer but read as +infinity by the index reader")
+                verdicts["known_null"] += 1
+                continue
         if sig2[i] and mut_evidence(t):
             if ck.match_finding(F_MUT):
                 ck.known_finding(F_MUT, "a fragment with a matching row is pruned / the scan panics because an index value was rewritten in place")
@@ -567,7 +582,7 @@ def main(ck):
     # stale findings (open entries that no longer reproduce) are reported, not failed
     if ck.match_finding(F_GRAM) and bcases and bverd["known_gram"] == 0:
         ck.notes.append("open finding %s did not reproduce in this run (stale?)" % F_GRAM)
-    for fid, key in ((F_RB, "known_rb"), (F_MUT, "known_mut")):
+    for fid, key in ((F_RB, "known_rb"), (F_MUT, "known_mut"), (F_NULL, "known_null")):
         if ck.match_finding(fid) and r["verdicts"][key] == 0:
             ck.notes.append("open finding %s did not reproduce in this run (stale?)" % fid)
     if r["broken"] and r["verdicts"]["violation"] == 0:
